@@ -9,8 +9,12 @@ import PhyModel.Proofs.StoreCache_dictRT
 namespace PhyModel.Store
 open PhyModel
 
-/-- data indices that are divided out lie inside the data set (where `DataNZ` speaks) -/
+/-- the data indices an operation mentions lie inside the data set (where `DataNZ` speaks; used
+for the division in `remove_data_point`) -/
 def InRange (dt : Data) : Op → Prop
+  | .create _ _ d => ∀ x ∈ d, x < dt.n
+  | .createAdd _ _ dp => dp < dt.n
+  | .addDp _ dp _ => dp < dt.n
   | .rmDp _ dp _ => dp < dt.n
   | _ => True
 
